@@ -1024,6 +1024,18 @@ func runR193(c *core.Ctx) {
 		if !ok {
 			nn := namedOf(inf.Types[arg].Type)
 			var md *ast.FuncDecl
+			// a named function, or a method value T(x).m / v.m: the declaration plays the part of the literal
+			if fn, isFn := core.ObjOf(inf, arg).(*types.Func); isFn {
+				if d := c.M.Decl(fn.Origin()); d != nil && d.Body != nil {
+					md, nn = d, nil
+					if sel, isSel := arg.(*ast.SelectorExpr); isSel && d.Recv != nil {
+						arg = core.Unparen(sel.X)
+						if o := core.ObjOf(inf, arg); o != nil && len(defs[o]) == 1 {
+							arg = core.Unparen(defs[o][0])
+						}
+					}
+				}
+			}
 			if nn != nil {
 				for i := 0; i < nn.NumMethods(); i++ {
 					if d := c.M.Decl(nn.Method(i).Origin()); d != nil && d.Body != nil && d.Type.Results != nil && len(d.Type.Results.List) == 1 {
